@@ -324,7 +324,9 @@ pub fn write_line_of_code_with_optional_path_and_line_number(
 
     let plus_line_number = line_numbers_and_hunk_lengths[line_numbers_and_hunk_lengths.len() - 1].0;
     let file_with_line_number = paint_file_path_with_line_number(
-        Some(plus_line_number),
+        // Only a line number that is displayed goes into the hyperlink.
+        Some(plus_line_number)
+            .filter(|_| matches!(include_line_number, HunkHeaderIncludeLineNumber::Yes)),
         plus_file,
         file_style,
         line_number_style,
